@@ -73,6 +73,23 @@ CHECKS = {
         technique="TLA+ spec + TLC; TLC-enumerated programs replayed on the real executor; TLC trace validation",
         design_ref="4.3, 5/C05",
     ),
+    "C30": dict(
+        category="model_checking",
+        text="ProcState.tla models the process state touched by in-process execution (stream redirection, shared "
+             "null file, OS descriptors and their saved duplicates, logging.disable level, Pynguin's own RNG, the "
+             "SUT's `random` stream reseeded per test, hidden SUT globals) with the executor's Enter/Exit bracket; "
+             "TLC checks Restored/NoCarryOver exhaustively and the variant of an executor that does not restore "
+             "logging / reopen the null file must violate them. Histories of test cases enumerated by TLC "
+             "(MC_ProcState: print, raise, close stdout, close fd 1, logging.disable, random.seed, random draw, "
+             "mutate global) run on the real TestCaseExecutor, each history in a freshly forked process; TLC "
+             "validates the projected process state after every execute() and that each result equals the result "
+             "of the same test case executed alone (ProcStateTrace.tla).",
+        note="'As before' = identity of sys.stdout/sys.stderr, fstat of fds 0-2, logging.root.manager.disable, "
+             "randomness.RNG.getstate(). Result = timeout, exception types by position, covered lines, predicate "
+             "outcomes. Test cases touching a SUT module global are hidden state and exempt from order independence.",
+        technique="TLA+ spec + TLC exhaustive (with a must-fail variant); TLC histories replayed on the real executor; TLC trace validation",
+        design_ref="4.2, 5/C30",
+    ),
 }
 
 NOT_BUILT_REASON = "not built yet in this round (planned, see DESIGN.md section 5); no claim is made"
